@@ -4028,15 +4028,18 @@ impl Collection {
                     // return the same document repeatedly and the duplicates
                     // would consume the caller's `limit`. First-occurrence
                     // order is preserved, matching the other branches.
+                    //
+                    // The scan walks in *key* order, which says nothing about
+                    // id order, so it cannot stop at `limit`: the first
+                    // `limit` ids met are not the smallest (or largest)
+                    // matching ids. Like every composite, the leaf returns
+                    // its full match set and the caller trims it.
                     let mut rt: UniqueVec<DocumentId> =
                         UniqueVec::with_capacity(Self::reserve_hint(limit));
                     index.try_range_query_ids(filter, order.is_descending(), |ids| {
                         for id in ids {
                             if candidates.is_none_or(|s| s.contains(id)) {
                                 rt.push(*id);
-                                if limit > 0 && rt.len() >= limit {
-                                    return false;
-                                }
                             }
                         }
                         true
